@@ -6,7 +6,9 @@ import (
 	"testing"
 
 	"github.com/antonmedv/expr"
+	"github.com/antonmedv/expr/compiler"
 	"github.com/antonmedv/expr/file"
+	"github.com/antonmedv/expr/parser"
 	"github.com/antonmedv/expr/vm"
 	"pgregory.net/rapid"
 
@@ -23,6 +25,7 @@ import (
 func init() {
 	core.RegisterJudge("C05", "prog", judgeC05)
 	core.RegisterJudge("C05", "large", judgeC05Large)
+	core.RegisterJudge("C05", "nochecker", judgeC05NoChecker)
 }
 
 // c05Shared is one caller-owned VM used for every case of the process, in addition to a fresh one.
@@ -309,6 +312,30 @@ func genC05(t *rapid.T, cfg *core.Config) *core.Case {
 	return c
 }
 
+// nochecker: sources handed to the compiler without any type check (parser.Parse + compiler.Compile with a nil
+// configuration - what Eval does). Whatever the parser lets through must still compile to a verifiable program: the
+// element pointer `#` and the loop scope instructions only between the OpBegin / OpEnd of a builtin.
+func judgeC05NoChecker(c *core.Case, cfg *core.Config) core.Verdict {
+	v := core.Verdict{Key: c.Source}
+	tree, err := parser.Parse(c.Source)
+	if err != nil {
+		v.Classes = append(v.Classes, "nochecker:rejected-by-the-parser")
+		return v
+	}
+	var prog *vm.Program
+	if p := guard("compiler.Compile", func() { prog, err = compiler.Compile(tree, nil) }); p != "" || err != nil {
+		v.Classes = append(v.Classes, "nochecker:rejected-by-the-compiler")
+		return v
+	}
+	if _, verr := bcVerify(prog); verr != nil {
+		v.Violation = fmt.Sprintf("malformed program for %q (compiled without a type check): %v\n%s", c.Source, verr, clip(prog.Disassemble()))
+		return v
+	}
+	v.Classes = append(v.Classes, "nochecker:verified")
+	v.NonTriv = strings.Contains(c.Source, "#") || strings.Contains(c.Source, "{")
+	return v
+}
+
 func TestC05(t *testing.T) {
 	cfg, rec, done := setup(t, "C05")
 	if done {
@@ -319,6 +346,35 @@ func TestC05(t *testing.T) {
 	rec.Extra["assumptions"] = []string{"opcode table in harness/checks/bc_test.go written from the meaning of each instruction and cross-checked against Program.Disassemble on every program", "OpArray/OpMap sizes are taken from the immediately preceding integer push (the only way the compiler emits them)"}
 	rec.Extra["floor"] = 0.1
 	if !core.RunRapid(t, rec, "random", cfg.N(30000, 500000), func(rt *rapid.T) *core.Case { return genC05(rt, cfg) }) {
+		return
+	}
+	// programs nobody type-checked: the element pointer and member shorthand in and out of closures
+	if !core.RunRapid(t, rec, "nochecker", cfg.N(2000, 40000), func(rt *rapid.T) *core.Case {
+		atoms := []string{"#", ".a", "#.a", "xs", "1", "x.y", "[#]", "{k: #}", "#[0]", "#[1:]", "-#", "# + 1", "not #", "f(#)", "x.m(#)", "# ? 1 : 2", "1..#", "# in xs", "nil", "'s'"}
+		var build func(d int) string
+		build = func(d int) string {
+			a := rapid.SampledFrom(atoms).Draw(rt, "atom")
+			if d <= 0 {
+				return a
+			}
+			switch rapid.IntRange(0, 5).Draw(rt, "shape") {
+			case 0:
+				return rapid.SampledFrom([]string{"all", "any", "none", "one", "filter", "map", "count"}).Draw(rt, "b") + "(" + build(d-1) + ", {" + build(d-1) + "})"
+			case 1:
+				return "len(" + build(d-1) + ")"
+			case 2:
+				return build(d-1) + rapid.SampledFrom([]string{" + ", " and ", " == ", " in ", " ?: ", ".."}).Draw(rt, "op") + build(d-1)
+			case 3:
+				return "(" + build(d-1) + " ? " + build(d-1) + " : " + a + ")"
+			case 4:
+				return "f(" + build(d-1) + ", " + a + ")"
+			}
+			return a
+		}
+		c := pcase("C05", "nochecker")
+		c.Source = build(rapid.IntRange(0, 3).Draw(rt, "d"))
+		return c
+	}) {
 		return
 	}
 	// large programs: deterministic enumeration over kinds and sizes around the limits
